@@ -165,7 +165,9 @@ class SimTransport:
         end = self.end
         if not isinstance(data, (bytes, bytearray, memoryview)):
             raise TypeError("Data must be bytes")
-        if not end.alive or self.disconnecting or not data:
+        # like abstract.FileDescriptor.write: data written after
+        # loseConnection() is still sent before the connection closes
+        if not end.alive or end.fin_sent or not data:
             return
         end.net.sim.stat_bytes += len(data)
         if end.net.sim.on_write is not None:
@@ -475,6 +477,14 @@ class Net:
         """Move bytes from end.sendbuf into the network (peer.inflight)."""
         link = end.link
         peer = end.peer
+        if link.up and not peer.alive and peer.made and end.alive:
+            # the far socket is closed: our data meets a RST
+            self.sim.note("write_to_closed_peer_reset")
+            link.up = False
+            end.fin_inbound = False
+            if end.lost_pending is None or end.lost_pending.check(
+                    error.ConnectionDone):
+                end.lost_pending = failure.Failure(error.ConnectionLost())
         if link.mode == "stream":
             n = len(end.sendbuf)
             room = self.window - len(peer.inflight)
@@ -719,6 +729,7 @@ class Sim:
         self.stat_bytes = 0
         self.logged = []         # twisted log errors: (type name, text)
         self.allow_advance = True
+        self.no_advance_while_connecting = False
         self.horizon = None      # simulated-time cap of the current run()
 
     # -- logging ---------------------------------------------------------
@@ -769,7 +780,7 @@ class Sim:
                     continue
                 if not net.autoflush and len(end.sendbuf) and \
                         (link.mode != "stream" or not link.up or
-                         link.blackhole or
+                         link.blackhole or not end.peer.alive or
                          len(end.peer.inflight) < net.window):
                     evs.append((w["flush"], "flush", end))
                     any_io = True
@@ -799,7 +810,11 @@ class Sim:
                 mult = item[2] if len(item) > 2 else 1
                 evs.append((w["fault"] * mult, "fault", (item[0], item[1])))
         if evs and self.allow_advance and r.calls and \
-                r.calls[0].getTime() > now and self.chaos:
+                r.calls[0].getTime() > now and self.chaos and \
+                not (self.no_advance_while_connecting and
+                     (net.attempts or any(
+                         not l.ends[0].made and not l.attempt.done
+                         for l in net.links))):
             evs.append((w["advance"], "advance", None))
         return evs
 
@@ -815,9 +830,11 @@ class Sim:
             return n
         c = t.choose(8, "chunk")
         if mode == "small":
-            if c < 5:
+            if c == 0:
+                return n          # (0 = boring: everything at once)
+            if c < 6:
                 return min(n, 1 + t.choose(64, "ck"))
-            return n if c == 7 else 1 + t.choose(n, "ck")
+            return 1 + t.choose(n, "ck")
         # mixed
         if c <= 3:
             return n
